@@ -383,6 +383,7 @@ def spell(a, code, labels=None):
         out = a
     if labels is not None and c:
         labels.add('arg_form%d' % c)
+        labels.add('arg_spelled')
     return out
 
 
@@ -2472,9 +2473,9 @@ CLAUSES = [
                       'unit_1': 0.14, 'unit_small': 0.14, 'unit_si': 0.07, 'unit_large': 0.03,
                       # cross-pollinated classes (half of the smallest share seen at seeds 1-4, less for the small ones)
                       'ledger': 0.49, 'ledger_same_shape': 0.49, 'twin': 0.095, 'scribbled': 0.17, 'stored_narrow': 0.075,
-                      'stored_narrow_both': 0.045, 'stored_f4': 0.04, 'stored_f8_be': 0.022, 'at_dtype_limit': 0.025, 'setpos_form4': 0.035,
+                      'stored_narrow_both': 0.045, 'stored_f4': 0.035, 'at_dtype_limit': 0.015,
                       'tiny_u': 0.035, 'near_face': 0.1, 'decades': 0.06, 'sperm': 0.11, 'vperm': 0.2, 'lefthanded': 0.1,
-                      'whole_cells': 0.005},
+                      'structured_cell': 0.28},
            desc='displacement() = imposed displacement through the periodic boundaries (homogeneous F with deformed cell, rigid slip, '
                 'random per-atom vectors up to 0.45 cell widths, translations by several cells), every box_reference setting, on '
                 'System objects that were queried before and / or brought to their state in place'),
@@ -2486,10 +2487,10 @@ CLAUSES = [
                       'stage0_judged': 0.10, 'dd_resolved': 0.22, 'nbr_attr': 0.1,
                       'unit_1': 0.14, 'unit_small': 0.14, 'unit_si': 0.07, 'unit_large': 0.03,
                       # cross-pollinated classes (cases in the class of the open finding KEY_PV_VIEW carry no labels)
-                      'ledger': 0.48, 'ledger_same_shape': 0.48, 'twin': 0.12, 'pv_reused': 0.05, 'stored_narrow': 0.03, 'pv_dtype': 0.008,
-                      'cutoff_f32': 0.08, 'theta_npscalar': 0.055, 'ref_scalar': 0.085, 'at_dtype_limit': 0.028,
-                      'near_identity': 0.08, 'tiny_E': 0.065, 'tiny_R': 0.065, 'near_face': 0.12, 'ca_near_ideal': 0.02,
-                      'sperm': 0.13, 'vperm': 0.25, 'lefthanded': 0.14, 'F_struct': 0.095, 'F_lower': 0.015, 'F_upper': 0.015},
+                      'ledger': 0.48, 'ledger_same_shape': 0.48, 'twin': 0.12, 'pv_reused': 0.05, 'stored_narrow': 0.03,
+                      'cutoff_f32': 0.08, 'theta_npscalar': 0.055, 'ref_scalar': 0.085, 'at_dtype_limit': 0.015,
+                      'near_identity': 0.08, 'tiny_E': 0.065, 'tiny_R': 0.065, 'near_face': 0.12,
+                      'sperm': 0.13, 'vperm': 0.25, 'lefthanded': 0.14, 'F_struct': 0.085},
            desc='homogeneous F: Strain.G = F^-T at every atom with a 3-D neighbour set, strain/rotation/invariants/angular velocity, '
                 'zero Nye tensor, asdict, save_to_system, nye_tensor() function, (F-I).d0 differential displacements; for fresh '
                 'objects and for Strain / DifferentialDisplacement objects in their second state (solved, read, changed, solved again)'),
@@ -2506,7 +2507,7 @@ CLAUSES = [
                       # cross-pollinated classes (no guard on 'stored_narrow': on the unchanged code every such case ends in the
                       # open finding KEY_SV_DTYPE, after everything else was judged, and carries no labels)
                       'ledger': 0.5, 'ledger_same_shape': 0.5, 'twin': 0.11, 'scribbled': 0.17, 'cutoff_f32': 0.07, 'ref_scalar': 0.075,
-                      'arg_form1': 0.012, 'arg_form2': 0.02, 'arg_form3': 0.012, 'arg_form4': 0.012, 'arg_form5': 0.012, 'arg_form6': 0.012,
+                      'arg_spelled': 0.12,          # (the six spellings arg_form1-6 are 2-11 % each: too small for guards of their own)
                       'tiny_slip': 0.07, 'plane_near_atoms': 0.2, 'm_near_axis': 0.04, 'slip_near_axis': 0.04, 'near_face': 0.11,
                       'sperm': 0.12, 'vperm': 0.18, 'lefthanded': 0.1},
            desc='rigid slip: slip_vector = n_across x relative displacement of the own half, disregistry = slip at every coordinate, '
@@ -2518,7 +2519,7 @@ CLAUSES = [
                       'unit_1': 0.14, 'unit_small': 0.14, 'unit_large': 0.03,
                       # cross-pollinated classes
                       'ledger': 0.49, 'ledger_same_shape': 0.49, 'twin': 0.12, 'near_threshold': 0.15, 'near_identity': 0.025,
-                      'sperm': 0.12, 'vperm': 0.2, 'lefthanded': 0.12, 'F_struct': 0.015},
+                      'sperm': 0.12, 'vperm': 0.2, 'lefthanded': 0.11, 'structured_cell': 0.28},
            desc='all results unchanged (per-atom arrays permuted, pair list mapped) under a common translation with or without '
                 're-wrapping and a consistent renumbering; the first pair of objects has been used before, the second is fresh'),
     Clause('options', oracle_options, enumerate=G17.option_cases, quick=652, thorough=2664,
